@@ -135,9 +135,9 @@ def run_property(prop, harnesses, tier, seed, jobs=None, opts=None, out=sys.stdo
         for shape in mod.instances(tier, prop):
             nb = shape.pop("_splitbits", 0)
             if nb:
-                import itertools as _it
-                for bits in _it.product((0, 1), repeat=nb):
-                    tasks.append((hn, dict(shape, _split=list(bits), _cost=shape.get("_cost", 0) / 2 ** nb),
+                N = 2 ** nb
+                for i in range(N):
+                    tasks.append((hn, dict(shape, _split=[i, N, nb + 2], _cost=shape.get("_cost", 0) / N),
                                   dict(opts, **getattr(mod, "OPTS", {}))))
             else:
                 tasks.append((hn, shape, dict(opts, **getattr(mod, "OPTS", {}))))
